@@ -222,6 +222,17 @@ pub struct ReplayFile {
     pub tier: String,
     pub shrink_steps: u64,
     pub spec: Spec,
+    /// set when the violation only shows after the runs that preceded it in its worker process
+    /// (process-wide state): replay = re-execute runs w, w+nw, ... up to `upto` in one fresh process
+    #[serde(default)]
+    pub slice: Option<SliceReplay>,
+}
+
+#[derive(Serialize, Deserialize, Clone, Debug)]
+pub struct SliceReplay {
+    pub w: u64,
+    pub nw: u64,
+    pub upto: u64,
 }
 
 /// `rngsim replay <file>`: exit 1 + VIOLATION line if the spec violates the property again.
@@ -248,7 +259,23 @@ pub fn replay(scn_of: &dyn Fn(&str) -> Option<Box<dyn Scenario>>, path: &str) ->
         }
     };
     let mut st = Stats::default();
-    let r = execute_guarded(scn.as_ref(), &rf.spec, &mut st);
+    let r = if let Some(sl) = &rf.slice {
+        // the violation needs the process history: re-execute the preceding runs of its worker
+        let tier = if rf.tier == "thorough" { Tier::Thorough } else { Tier::Quick };
+        let mut last = RunEnd::Ok;
+        let mut idx = sl.w;
+        while idx <= sl.upto {
+            let (_, r, _) = one_run(scn.as_ref(), tier, rf.verif_seed, idx, &mut st);
+            if idx == sl.upto {
+                last = r;
+            }
+            idx += sl.nw;
+        }
+        println!("replay: re-executed runs {}, {}+{}, ... , {} in one process", sl.w, sl.w, sl.nw, sl.upto);
+        last
+    } else {
+        execute_guarded(scn.as_ref(), &rf.spec, &mut st)
+    };
     match r {
         RunEnd::Violation(v) => {
             println!("replay: class={} key={} detail={}", v.class, v.key, v.detail);
@@ -310,6 +337,7 @@ pub fn parent(scn: &dyn Scenario, tier: Tier, seed: u64) -> i32 {
                     tier: tier.name().to_string(),
                     shrink_steps: 0,
                     spec: spec.clone(),
+                    slice: None,
                 };
                 if !crashes_in_fresh_process(&exe, &rf, &path) {
                     continue;
@@ -414,6 +442,7 @@ pub fn parent(scn: &dyn Scenario, tier: Tier, seed: u64) -> i32 {
             tier: tier.name().to_string(),
             shrink_steps: f.shrink_steps,
             spec: f.spec.clone(),
+            slice: None,
         };
         std::fs::write(&path, serde_json::to_string_pretty(&rf).unwrap()).expect("write replay");
         let out = Command::new(&exe)
@@ -421,7 +450,22 @@ pub fn parent(scn: &dyn Scenario, tier: Tier, seed: u64) -> i32 {
             .stdin(Stdio::null())
             .output()
             .expect("spawn replay");
-        let reproduced = out.status.code() == Some(1);
+        let mut reproduced = out.status.code() == Some(1);
+        if !reproduced {
+            // Not reproducible from the spec alone: does it reproduce with the runs that preceded it
+            // in its worker process? Then the code under test keeps process-wide state, and the
+            // replay is that slice of runs.
+            let mut rf2 = rf.clone();
+            rf2.slice = Some(SliceReplay { w: f.idx % nw, nw, upto: f.idx });
+            rf2.detail = format!("{} [only after the preceding runs of the same process: the code under test keeps process-wide state]", rf2.detail);
+            std::fs::write(&path, serde_json::to_string_pretty(&rf2).unwrap()).expect("write replay");
+            let out2 = Command::new(&exe).args(["replay", path.to_str().unwrap()]).stdin(Stdio::null()).output().expect("spawn replay");
+            if out2.status.code() == Some(1) && String::from_utf8_lossy(&out2.stdout).contains("same_class=true") {
+                reproduced = true;
+            } else {
+                std::fs::write(&path, serde_json::to_string_pretty(&rf).unwrap()).expect("write replay");
+            }
+        }
         if !reproduced {
             harness_errors.push(format!(
                 "violation {} (run {}) did not reproduce from its replay file in a fresh process",
@@ -720,6 +764,7 @@ pub fn parent_c18(scn: &dyn Scenario, tier: Tier, seed: u64, bins: &[(String, St
             tier: tier.name().to_string(),
             shrink_steps: 0,
             spec: spec.clone(),
+            slice: None,
         };
         std::fs::write(&path, serde_json::to_string_pretty(&rf).unwrap()).expect("write replay");
         let per_op = |bin: &str| -> Vec<u64> {
